@@ -444,4 +444,19 @@ theorem shape_Conn_delSTHandlers : Facts.shape_Conn_delSTHandlers = some "3b3b0f
 theorem shape_Conn_recvFor : Facts.shape_Conn_recvFor = some "273e21144237319b" := by decide
 
 
+/-- [C14] every exported tracker method takes the mutex first (`Lock; defer Unlock`), NewNick/NewChannel after a
+prologue that does not mention the tracker at all -/
+theorem tracker_lock_discipline : Facts.trackerLockDiscipline = some ["Associate:first", "ChannelModes:first", "DelChannel:first",
+    "DelNick:first", "Dissociate:first", "GetChannel:first", "GetNick:first", "IsOn:first", "Me:first", "NewChannel:after-pure-prologue",
+    "NewNick:after-pure-prologue", "NickInfo:first", "NickModes:first", "ReNick:first", "String:first", "Topic:first", "Wipe:first"] := by decide
+
+/-- [C14] every exported tracker method returns only nil / false / a debugging string, or the result of `.Nick()`,
+`.Channel()`, `.Copy()` or `isOn` - the four functions the snapshot heap model transcribes -/
+theorem tracker_returns : Facts.trackerReturns = some ["Associate:cp.Copy()", "Associate:nil", "ChannelModes:ch.Channel()", "ChannelModes:nil",
+    "DelChannel:ch.Channel()", "DelChannel:nil", "DelNick:nil", "DelNick:nk.Nick()", "GetChannel:ch.Channel()", "GetChannel:nil", "GetNick:nil",
+    "GetNick:nk.Nick()", "IsOn:false", "IsOn:nil", "IsOn:nk.isOn(ch)", "Me:st.me.Nick()", "NewChannel:nil", "NewChannel:st.chans[c].Channel()",
+    "NewNick:nil", "NewNick:st.nicks[n].Nick()", "NickInfo:nil", "NickInfo:nk.Nick()", "NickModes:nil", "NickModes:nk.Nick()", "ReNick:nil",
+    "ReNick:nk.Nick()", "String:str", "Topic:ch.Channel()", "Topic:nil"] := by decide
+
+
 end FactsCheck
